@@ -33,9 +33,9 @@ CLAIMS = {
          "DESIGN.md 4 (C03, stage G)"),
  "C05": ("For every engine and 5 fixture routes covering path/query/header/form locations, int/uint/int64/int8/bool/string/[]string/enum/pointer/context parameters: for every symbolic request (presence bits, values of up to 2 (thorough 3) bytes over digits, signs and letters, plus numerals around 2^32 and 2^63) "
          "the controller receives position by position the value at the declared location converted to the declared type (reference numeral parsers written from the type's range; numerals around 2^31 for int, 2^32 for uint, 2^63 for int64), a missing non-pointer/path parameter or a non-convertible value is answered 422 without invoking the method, missing pointer parameters arrive as nil, context parameters are non-nil.",
-         "Bounds as coded in harness-g/verifgen/cross/zz_verif_c05.go. strconv is interpreted from source. Outside: go-playground validator rules other than `required` (stub), JSON body decoding beyond the cases of C12, percent-decoding and header canonicalisation inside the real frameworks, floats.",
+         "Bounds as coded in harness-g/verifgen/cross/zz_verif_c05.go. strconv is interpreted from source. float32/float64 parameters on concrete candidate texts around the edges of both widths (strconv's verdict for the declared width is the reference). Outside: go-playground validator rules other than `required` (stub), JSON body decoding beyond the cases of C12, percent-decoding and header canonicalisation inside the real frameworks.",
          "DESIGN.md 4 (C05, stage G)"),
- "C12": ("For each of the 7 fixture routes, one shared symbolic request (every location absent/empty/malformed/valid), shared callback answers and shared controller outcome (value or error) are run through the five generated handlers inside one path: same controller method with equal arguments (or none), same status, same JSON body as the gin router. "
+ "C12": ("For each of the 9 fixture routes (floating point parameters on concrete candidate texts), one shared symbolic request (every location absent/empty/malformed/valid), shared callback answers and shared controller outcome (value or error) are run through the five generated handlers inside one path: same controller method with equal arguments (or none), same status, same JSON body as the gin router. "
          "One recorded finding (fiber treats an empty header value as absent) is reported as KNOWN-FINDING.",
          "Bounds as coded in harness-g/verifgen/cross/zz_verif_c12.go. Bodies are compared through encoding/json (engine: a type-directed JSON model; natively: the real package). Same fixture/stub caveats as C02.",
          "DESIGN.md 4 (C12, stage G)"),
@@ -94,7 +94,7 @@ CLAIMS = {
          "Bounds as coded in harness/.../core/pipeline/zz_verif_c13.go (vh_C19_*). Outside: source files that change between analyses (FileVersion.HasChanged is file-system state).",
          "DESIGN.md 4 (C19)"),
  "C14": ("Crash freedom, decided by reachability of a panic on every path of the bound: both schema validation converters on every validation string of one rule (vocabulary or junk) with a symbolic value of up to 2 bytes on 6 field types incl. a $ref type; "
-         "the whole front end (parse, type-check, visitors, validators, reduction, both emitters) on 432 perturbed source files (see C10); both model emitters on a struct field whose tag is free text (5 prefixes x 0-3 symbolic bytes over letters, quote, comma, '=' x 5 suffixes: missing closing quotes, empty values, stray quotes); annotation parsing and validators through vh_C14_* wrappers; "
+         "the whole front end (parse, type-check, visitors, validators, reduction, both emitters) on 432 perturbed source files (see C10) and on 18 unusual type shapes (func, chan, interface, anonymous struct, generic instantiations with builtin and struct arguments, error, uintptr, complex) as model field (visible or json:\"-\"), query parameter or returned value; both model emitters on a struct field whose tag is free text (5 prefixes x 0-3 symbolic bytes over letters, quote, comma, '=' x 5 suffixes: missing closing quotes, empty values, stray quotes); annotation parsing and validators through vh_C14_* wrappers; "
          "in addition every other harness of this suite treats a reachable panic in the code under test as a violation (FindConflicts, symbol graph operations, annotation parsing, validators, both emitters).",
          "Bounds as coded in harness/.../generator/swagen/zz_verif_c11.go (vh_C14_*). Outside: go/packages loading, visitors, Handlebars, json5, cobra; wall-clock bounds of the real CLI; loops are bounded by the engine's instruction budget (exhaustion is reported as inconclusive, never as success).",
          "DESIGN.md 4 (C14)"),
